@@ -507,6 +507,14 @@ func (w *kqueue) readEvents() {
 			if event.Has(Rename) || event.Has(Remove) {
 				w.remove(event.Name, false)
 				w.watches.markSeen(event.Name, false)
+				if path.isDir && event.Has(Rename) && !event.Has(Remove) {
+					// The entries of a renamed directory don't get a
+					// notification of their own (unlike those of a removed
+					// one), so stop watching them here.
+					for _, name := range w.watches.watchesInDir(event.Name) {
+						w.Remove(name)
+					}
+				}
 			}
 
 			if path.isDir && event.Has(Write) && !event.Has(Remove) {
